@@ -337,10 +337,11 @@ type Res struct {
 }
 
 type RunOut struct {
-	Unit string `json:"unit"`
-	Prog string `json:"prog"`
-	Miss bool   `json:"miss"`
-	Res  []Res  `json:"res"`
+	Unit  string            `json:"unit"`
+	Prog  string            `json:"prog"`
+	Miss  bool              `json:"miss"`
+	Res   []Res             `json:"res"`
+	Types map[string]string `json:"types"`
 }
 
 func (s *Scratch) Run(bin string, jobs []RunJob) (map[string]*RunOut, error) {
